@@ -150,7 +150,7 @@ Definition wf_name (n : list N) : bool :=
 Definition wf_value (v : list N) : bool :=
   no_ctl v &&
   match v with [] => true | c :: _ => negb (is_ows c) end &&
-  match rev v with [] => true | c :: _ => negb (is_ows c) end.
+  match frev v with [] => true | c :: _ => negb (is_ows c) end.
 Definition wf_field (allow_framing_names : bool) (f : hfield) : bool :=
   wf_name (f_name f) && wf_value (f_value f) &&
   forallb is_ows (f_lead f) && forallb is_ows (f_trail f) &&
